@@ -1780,11 +1780,13 @@ class ForAll(QuantifiedConditional):
 
     @cached_property
     def condition_unique_variable_ids(self) -> List[int]:
+        universal_variables = self.left._unique_variables_
+        # a variable that is computed from the universal variable (e.g., a predicate or a symbolic function over it) has
+        # another value for every universal value, so its value is not part of a candidate solution.
         return [
             v.id_
-            for v in self.condition._unique_variables_.difference(
-                self.left._unique_variables_
-            )
+            for v in self.condition._unique_variables_.difference(universal_variables)
+            if not v.value._unique_variables_.intersection(universal_variables).values
         ]
 
     def _evaluate__(
